@@ -374,6 +374,26 @@ theorem step_auth (st : St) (op : Op) : AuthFrom st.db.users (extraOf st op) (st
         (∃ v ∈ st.db.users, v.id = u.id ∧ e ∈ v.auth) ∨ (u.id, e) ∈ ([] : List (Nat × (Int × Str))) :=
       fun e he => Or.inl ⟨u, hu, rfl, he⟩
     exact setUser_auth_from (authFrom_put hput) hput
+  | clearHosts id =>
+    simp only [step, extraOf]
+    apply withUser_auth
+    intro u hu huid
+    dsimp only
+    have hput : ∀ e ∈ ({ u with hostmasks := [] } : User).auth,
+        (∃ v ∈ st.db.users, v.id = u.id ∧ e ∈ v.auth) ∨ (u.id, e) ∈ ([] : List (Nat × (Int × Str))) :=
+      fun e he => Or.inl ⟨u, hu, rfl, he⟩
+    exact setUser_auth_from (authFrom_put hput) hput
+  | setName id name =>
+    simp only [step, extraOf]
+    apply withUser_auth
+    intro u hu huid
+    split
+    · exact authFrom_refl _ _
+    · dsimp only
+      have hput : ∀ e ∈ ({ u with name := name } : User).auth,
+          (∃ v ∈ st.db.users, v.id = u.id ∧ e ∈ v.auth) ∨ (u.id, e) ∈ ([] : List (Nat × (Int × Str))) :=
+        fun e he => Or.inl ⟨u, hu, rfl, he⟩
+      exact setUser_auth_from (authFrom_put hput) hput
   | load id name sec masks =>
     simp only [step, extraOf]
     have h1 : AuthFrom st.db.users []
@@ -447,22 +467,39 @@ theorem quiet_callerIsOwner (st : St) (p : Str) : Quiet st (callerIsOwner st p).
   · exact quiet_refl st
   · exact quiet_getUser st p
 
-theorem convFirst_state (st : St) (p a : Str) :
-    (convFirst st p a).1 = (convUser st p).1 ∨ (convFirst st p a).1 = (getUser st a).1 ∨
-    (convFirst st p a).1 = (convUser (getUser st a).1 p).1 := by
-  unfold convFirst
+theorem convOther_state (nicks : List (Str × Str)) (st : St) (a : Str) :
+    (convOther nicks st a).1 = st ∨ (convOther nicks st a).1 = (getUser st a).1 ∨
+    (∃ hm, (convOther nicks st a).1 = (getUser (getUser st a).1 hm).1) := by
+  unfold convOther
   split
   · exact Or.inl rfl
   · dsimp only
     split
     · exact Or.inr (Or.inl rfl)
-    · exact Or.inr (Or.inr rfl)
+    · split
+      · exact Or.inr (Or.inl rfl)
+      · exact Or.inr (Or.inr ⟨_, rfl⟩)
+    · exact Or.inr (Or.inl rfl)
 
-theorem quiet_convFirst (st : St) (p a : Str) : Quiet st (convFirst st p a).1 := by
-  rcases convFirst_state st p a with e | e | e <;> rw [e]
-  · exact quiet_convUser st p
+theorem quiet_convOther (nicks : List (Str × Str)) (st : St) (a : Str) : Quiet st (convOther nicks st a).1 := by
+  rcases convOther_state nicks st a with e | e | ⟨hm, e⟩ <;> rw [e]
+  · exact quiet_refl st
   · exact quiet_getUser st a
-  · exact quiet_trans (quiet_getUser st a) (quiet_convUser _ p)
+  · exact quiet_trans (quiet_getUser st a) (quiet_getUser _ hm)
+
+theorem convFirst_state (nicks : List (Str × Str)) (st : St) (p a : Str) :
+    (convFirst nicks st p a).1 = (convOther nicks st a).1 ∨
+    (convFirst nicks st p a).1 = (convUser (convOther nicks st a).1 p).1 := by
+  unfold convFirst
+  dsimp only
+  split
+  · exact Or.inl rfl
+  · exact Or.inr rfl
+
+theorem quiet_convFirst (nicks : List (Str × Str)) (st : St) (p a : Str) : Quiet st (convFirst nicks st p a).1 := by
+  rcases convFirst_state nicks st p a with e | e <;> rw [e]
+  · exact quiet_convOther nicks st a
+  · exact quiet_trans (quiet_convOther nicks st a) (quiet_convUser _ p)
 
 theorem hostAddBody_state (pwOk : Str → Str → Bool) (pst : PSt) (st : St) (p : Str) (u : User) (hm pw : Str) :
     (hostAddBody pwOk pst st p u hm pw).1 = (callerIsOwner st p).1 ∨
@@ -510,25 +547,27 @@ theorem quiet_guard (pwOk : Str → Str → Bool) (pst : PSt) (c : Cmd) : Quiet 
       · exact h1
       · exact quiet_trans h1 (quiet_getUser _ p)
     · exact h1
-  | identify p name pw =>
+  | identify p name pw => simp only [guard]; exact quiet_convOther _ _ name
+  | changename p name newname pw =>
     simp only [guard]
+    have h1 := quiet_convOther pst.nicks pst.st name
     split
-    · exact quiet_refl _
-    · exact quiet_getUser _ name
+    · exact h1
+    · exact quiet_trans h1 (quiet_getUserId _ newname)
   | unidentify p => simp only [guard]; exact quiet_convUser _ p
   | hostAdd p name mask pw =>
     simp only [guard]
     cases name with
     | some n =>
       dsimp only
-      have h1 := quiet_convFirst pst.st p n
+      have h1 := quiet_convFirst pst.nicks pst.st p n
       split
       · exact h1
       · exact quiet_trans h1 (quiet_hostAddBody pwOk pst _ p _ mask pw)
       · exact h1
     | none =>
       dsimp only
-      have h1 := quiet_convFirst pst.st p mask
+      have h1 := quiet_convFirst pst.nicks pst.st p mask
       split
       · exact h1
       · exact quiet_trans h1 (quiet_hostAddBody pwOk pst _ p _ [] [])
@@ -538,14 +577,14 @@ theorem quiet_guard (pwOk : Str → Str → Bool) (pst : PSt) (c : Cmd) : Quiet 
     cases name with
     | some n =>
       dsimp only
-      have h1 := quiet_convFirst pst.st p n
+      have h1 := quiet_convFirst pst.nicks pst.st p n
       split
       · exact h1
       · exact quiet_trans h1 (quiet_hostRemoveBody pwOk pst _ p _ mask pw)
       · exact h1
     | none =>
       dsimp only
-      have h1 := quiet_convFirst pst.st p mask
+      have h1 := quiet_convFirst pst.nicks pst.st p mask
       split
       · exact h1
       · exact quiet_trans h1 (quiet_hostRemoveBody pwOk pst _ p _ [] [])
@@ -577,12 +616,16 @@ theorem hostAddBody_not_identify (pwOk : Str → Str → Bool) (pst : PSt) (st :
 
 theorem hostRemoveBody_not_identify (pwOk : Str → Str → Bool) (pst : PSt) (st : St) (p : Str) (u : User)
     (hm pw : Str) (id : Nat) (h : Str) : (hostRemoveBody pwOk pst st p u hm pw).2 ≠ .run (.identify id h) := by
+  have hro : ∀ i m, removeOp i m ≠ .identify id h := by
+    intro i m; unfold removeOp; split <;> (intro e; cases e)
   unfold hostRemoveBody hostRemoveCore
   generalize (if hm.isEmpty then p else hm) = hm'
   dsimp only
   split
-  · split <;> (intro e; cases e)
-  · intro e; cases e
+  · split
+    · intro e; cases e
+    · intro e; injection e with e; exact hro _ _ e
+  · intro e; injection e with e; exact hro _ _ e
 
 /-- **the plugin runs `identify` only after the password test**: the guard hands the dictionary
 an `identify id h` only for the command `identify <name> <password>` sent from exactly `h`, and
@@ -606,16 +649,24 @@ theorem guard_identify {pwOk : Str → Str → Bool} {pst : PSt} {c : Cmd} {id :
   | identify p name pw =>
     simp only [guard] at hg
     split at hg
+    · rename_i u hu
+      split at hg
+      · rename_i hpw
+        injection hg with hg; injection hg with h1 h2
+        subst h1 h2
+        exact ⟨name, pw, rfl, hpw⟩
+      · cases hg
+    · cases hg
+  | changename p name newname pw =>
+    simp only [guard] at hg
+    split at hg
     · cases hg
     · dsimp only at hg
       split at hg
-      · rename_i u hu
-        split at hg
-        · rename_i hpw
-          injection hg with hg; injection hg with h1 h2
-          subst h1 h2
-          exact ⟨name, pw, rfl, hpw⟩
+      · cases hg
+      · split at hg
         · cases hg
+        · split at hg <;> cases hg
       · cases hg
   | unidentify p =>
     simp only [guard] at hg
@@ -796,5 +847,78 @@ theorem pinit (pwOk : Str → Str → Bool) (db : Db) (h : db.users = []) :
   · intro u hu; simp only at hu; rw [h] at hu; cases hu
   · intro l hl; cases hl
   · intro u hu; simp only at hu; rw [h] at hu; cases hu
+
+/-! ### the bot's own lookups around a command -/
+
+theorem quiet_lookups (st : St) (p : Str) (n : Nat) : Quiet st (lookups st p n) := by
+  induction n generalizing st with
+  | zero => exact quiet_refl st
+  | succ n ih => unfold lookups; exact quiet_trans (quiet_getUserId st p) (ih _)
+
+theorem quiet_lookupsAbort (st : St) (p : Str) (n : Nat) : Quiet st (lookupsAbort st p n).1 := by
+  induction n generalizing st with
+  | zero => exact quiet_refl st
+  | succ n ih =>
+    unfold lookupsAbort
+    dsimp only
+    split
+    · exact quiet_getUserId st p
+    · exact quiet_trans (quiet_getUserId st p) (ih _)
+
+theorem pinv_quiet {pwOk : Str → Str → Bool} {pst : PSt} {st' : St} (hi : PInv pwOk pst)
+    (hq : Quiet pst.st st') : PInv pwOk { pst with st := st' } := by
+  refine ⟨hq.inv hi.inv, ?_, hi.logOK, noCommon_of_masksFrom hi.disjoint hq.masks⟩
+  intro u hu e he
+  rcases hq.auth u hu e he with ⟨v, hv, hid, hev⟩ | hx
+  · obtain ⟨l, hl, h1, h2, h3⟩ := hi.backed v hv e hev
+    exact ⟨l, hl, h1.trans hid, h2, h3⟩
+  · cases hx
+
+theorem pinv_nicks {pwOk : Str → Str → Bool} {pst : PSt} (hi : PInv pwOk pst) (n : List (Str × Str)) :
+    PInv pwOk { pst with nicks := n } := ⟨hi.inv, hi.backed, hi.logOK, hi.disjoint⟩
+
+/-- the invariants survive a command as the live bot processes it, for any number of
+surrounding lookups -/
+theorem pstepA_pinv {pwOk : Str → Str → Bool} {pst : PSt} (amb : Ambient) (hi : PInv pwOk pst) (c : Cmd) :
+    PInv pwOk (pstepA amb pwOk pst c).1 := by
+  unfold pstepA
+  split
+  · exact pstep_pinv hi c
+  · rename_i p _
+    dsimp only
+    have h0 := pinv_nicks hi (noteSender pst.nicks p)
+    split
+    · exact pinv_quiet h0 (quiet_trans (quiet_lookupsAbort _ p _) (quiet_lookups _ p _))
+    · have h1 := pinv_quiet h0 (quiet_trans (quiet_lookupsAbort _ p amb.aborting) (quiet_lookups _ p amb.pre))
+      have h2 := pstep_pinv h1 c
+      exact pinv_quiet h2 (quiet_lookups _ p _)
+
+theorem prunA_pinv {pwOk : Str → Str → Bool} {pst : PSt} (amb : Ambient) (hi : PInv pwOk pst) (cs : List Cmd) :
+    PInv pwOk (prunA amb pwOk pst cs) := by
+  induction cs generalizing pst with
+  | nil => exact hi
+  | cons c cs ih =>
+    unfold prunA
+    simp only [List.foldl_cons]
+    exact ih (pstepA_pinv amb hi c)
+
+/-- **a sender that matches two accounts gets nothing done**: when the bot's first lookup of the
+sender raises DuplicateHostmask, the command is not executed — no reply, no new login, no new
+account; only lookups happened (which delete the offending masks) -/
+theorem ambiguous_sender_runs_nothing (amb : Ambient) (pwOk : Str → Str → Bool) (pst : PSt) (c : Cmd) (p : Str)
+    (hp : c.sender = some p) (hpos : 0 < amb.aborting)
+    (hdup : (getUserId pst.st p).2 = .error .value) :
+    (pstepA amb pwOk pst c).2 = .silent ∧ (pstepA amb pwOk pst c).1.log = pst.log ∧
+    (pstepA amb pwOk pst c).1.pws = pst.pws ∧ Quiet pst.st (pstepA amb pwOk pst c).1.st := by
+  unfold pstepA
+  rw [hp]
+  dsimp only
+  have habort : (lookupsAbort pst.st p amb.aborting).2 = true := by
+    cases ha : amb.aborting with
+    | zero => rw [ha] at hpos; cases hpos
+    | succ n => unfold lookupsAbort; dsimp only; rw [hdup]
+  rw [habort]
+  simp only [if_true, true_and]
+  exact quiet_trans (quiet_lookupsAbort _ p _) (quiet_lookups _ p _)
 
 end C04
